@@ -526,6 +526,8 @@ C17_ExactAtRest == Quiescent =>
 ---- \* C18 pool and goroutines
 C18_PoolBound == Quiescent /\ ~overlap => E.cpool <= concMax
 C18_IdleAtLeastOne == RunningAtRest => E.idle >= 1
+\* idle workers are worker goroutines: never more of them than the largest concurrency configured
+C18_IdleBound == IsRet("NumIdle") => E.v <= concMax
 MinIdle == Max({(Min(concNow) * (IF hdr.ratio = 0 THEN 1 ELSE hdr.ratio)) \div 100, 1})
 C18_Trimmed == RunningAtRest /\ hdr.expiry > 0 /\ E.settled => E.idle <= Max({(Max(concNow) * (IF hdr.ratio = 0 THEN 1 ELSE hdr.ratio)) \div 100, 1})
 C18_NoLeak == Quiescent /\ ~overlap /\ ws = "stopped" /\ E.wss = "Stopped" /\ E.blocked = <<>> => E.cloop = 0 /\ E.cpool = 0 /\ E.creaper = 0 /\ E.cctxl = 0
